@@ -45,6 +45,8 @@ def _multibyte(fs):
 
 def check(case, rec):
     from nptdms import TdmsFile
+    if case.get('daqmx'):
+        return check_daqmx(case, rec)
     fs = case['fs']
     n = len(fs['segments'])
     ex = expected_content(fs)
@@ -81,6 +83,52 @@ def cases(draw, **kw):
     return {'fs': fs, 'mix': mix}
 
 
+def check_daqmx(case, rec):
+    """DAQmx scalers: the same logical values in little-endian, big-endian and mixed segments"""
+    from nptdms import TdmsFile
+    from vf.daqmx import expected_daqmx, reencode_big_endian
+    from vf.observe import compare_values
+    from vf.model import split_path
+    fs = case['fs']
+    n = len(fs['segments'])
+    exd = expected_daqmx(fs)                     # defined by the little-endian encoding
+    rec.nontrivial(any(s['type'] not in ('u8', 'i8') for seg in fs['segments'] for e in seg['entries'] for s in e['scalers']))
+    rec.label('daqmx')
+    for name, order in (('little', [False] * n), ('big', [True] * n), ('mixed', case['mix'])):
+        segs = [reencode_big_endian(seg) if be else seg for seg, be in zip(fs['segments'], order)]
+        data, _i, _l = encode_file({'segments': segs})
+        for mode in ('eager', 'lazy'):
+            opener = TdmsFile.read if mode == 'eager' else TdmsFile.open
+            ok, tf = rec.guard('%s:%s' % (name, mode), lambda: opener(io.BytesIO(data)))
+            if not ok:
+                continue
+            try:
+                for p, eo in exd.items():
+                    g, c = split_path(p)
+                    ch = tf[g][c]
+                    ok, d = rec.guard('%s:%s' % (name, mode), lambda: ch.read_data(scaled=False))
+                    if not ok:
+                        continue
+                    if eo['chan_type'] == 'raw':
+                        for sid, (t, vals) in eo['scalers'].items():
+                            for m in compare_values(t, vals, d.get(sid, []), '%s %s %s scaler %d' % (name, mode, p, sid)):
+                                rec.violation('%s:%s:daqmx_values' % (name, mode), m)
+                    else:
+                        t, vals = list(eo['scalers'].values())[0]
+                        for m in compare_values(t, vals, d, '%s %s %s' % (name, mode, p)):
+                            rec.violation('%s:%s:daqmx_values' % (name, mode), m)
+            finally:
+                tf.close()
+
+
+@st.composite
+def daqmx_cases(draw):
+    from vf.daqmx import daqmx_packed_file
+    fs = draw(daqmx_packed_file())
+    n = len(fs['segments'])
+    return {'daqmx': True, 'fs': fs, 'mix': draw(st.lists(st.booleans(), min_size=n, max_size=n))}
+
+
 @st.composite
 def plan_cases(draw):
     from props.C02 import history
@@ -95,7 +143,9 @@ def plan_cases(draw):
 def jobs(tier):
     if tier == 'quick':
         return [Job('contents', 'hyp', lambda: cases(max_segments=4), n=2500),
-                Job('reused_indexes_mixed_order', 'hyp', plan_cases, n=1500)]
+                Job('reused_indexes_mixed_order', 'hyp', plan_cases, n=1500),
+                Job('daqmx_contents', 'hyp', daqmx_cases, n=1200)]
     return [Job('contents', 'hyp', lambda: cases(max_segments=5), n=100000),
             Job('bigger', 'hyp', lambda: cases(max_segments=6, max_n=40), n=15000),
-            Job('reused_indexes_mixed_order', 'hyp', plan_cases, n=60000)]
+            Job('reused_indexes_mixed_order', 'hyp', plan_cases, n=60000),
+            Job('daqmx_contents', 'hyp', daqmx_cases, n=40000)]
